@@ -1173,6 +1173,13 @@ def shard(member, acc):
                     if nr > cap:
                         continue
                 check_seed(scr, sch, lines, acc, mid, tier)
+                # wave 6: the same text with its LAST closer missing (one section left open at the end: rejected).
+                # Among its unbalanced ranges are those that leave exactly that section open while the rest of the text
+                # is fine - a fragment that leaves a section open must be rejected even where nothing else is wrong
+                # (in an unbalanced range of a BALANCED text the rest of the text is broken too and hides it)
+                if d.verdict == "A" and classify(lines[-1]) == "close" and na % (3 if tier == "quick" else 1) == 0:
+                    acc.extra["truncated_seeds"] += 1
+                    check_seed(scr, sch, lines[:-1], acc, mid, tier, mode="lean")
         elif kind == "import":
             _, name, xml, seeds = member[:4]
             pk = ImportPackages()
@@ -1282,7 +1289,8 @@ def run(tier):
         rule="seeds = accepted and rejected corpus texts (3..%d lines, capped per schema) and %d %%define texts "
              "(all 3-/4-line texts over an 8-line define/use/section alphabet); per seed every balanced line range "
              "as a fragment in 3 placements (same / sub-directory with a space in its name / parent directory), "
-             "every unbalanced range (must be rejected), every ordered pair of disjoint or nested balanced ranges x "
+             "every unbalanced range (must be rejected; also in every %s accepted seed with its last closer "
+             "missing, where the rest of the text is fine), every ordered pair of disjoint or nested balanced ranges x "
              "%s placement pairs%s; real files, ZConfig.loadConfig(path) vs loadConfigFile(StringIO(original)).  "
              "FOLD AXIS (resource identity): for every seed above and for %d repeat seeds (all texts of 2..%d lines "
              "over the %d-line alphabet %r that are layout-balanced and contain a run of lines twice), every pair of "
@@ -1318,7 +1326,7 @@ def run(tier):
              "nested cut, a seed with %%define, a folded layout (a resource read more than once in one load), a "
              "reference not written as a literal relative path, an outer resource not named by its plain absolute "
              "path, a resource stored as a symbolic link, a seed of the import or the character family."
-             % (7 if tier == "quick" else 9, len(ds), "4" if tier == "quick" else "9",
+             % (7 if tier == "quick" else 9, len(ds), "third" if tier == "quick" else "", "4" if tier == "quick" else "9",
                 "" if tier == "quick" else ", triples for seeds <= 6 lines",
                 len(rs), 5 if tier == "quick" else 6, len(REPEAT_ALPHABET), list(REPEAT_ALPHABET),
                 "; three at once for seeds <= 5 lines" if tier == "quick" else "; every three at once",
@@ -1367,6 +1375,7 @@ def run(tier):
     run.require(a.classes.get("single:tree", 0) > 200 and a.classes.get("pair-nested:tree", 0) > 100,
                 "few accepted include layouts")
     run.require(a.classes.get("unbalanced:rejected", 0) > 200, "few unbalanced fragments")
+    run.require(a.extra.get("truncated_seeds", 0) > 100, "few seeds with the last closer missing")
     x = a.extra
     for k in ("fold-siblings", "fold-via-then-direct", "fold-direct-then-via", "fold-siblings-in-fragment",
               "fold-diamond", "fold-chain", "fold-siblings-3"):
